@@ -1,4 +1,5 @@
 import Driver.Buddy
+import Driver.Key
 /-! Line-protocol driver. First token of each line selects the model. -/
 open Redb.Driver
 
@@ -11,6 +12,7 @@ def dispatch (st : DState) (line : String) : DState × String :=
   | "buddy" :: rest =>
     let (b, out) := buddyStep st.buddy rest obs
     ({ st with buddy := b }, out)
+  | "key" :: rest => (st, keyStep rest obs)
   | _ => (st, "bad-op")
 
 partial def loop (h : IO.FS.Stream) (out : IO.FS.Stream) (st : DState) : IO Unit := do
